@@ -535,3 +535,107 @@ func c23Extra(r *Run) error {
 	r.census("C23/access-token-mint-census", as+".createAccessToken", 0, "", as+".handleAuthorizationCodeGrant", as+".handleRefreshTokenGrant", as+".handleClientCredentialsGrant")
 	return nil
 }
+
+// secretFields: the paths to fields whose name says they hold a secret, reachable from type t through struct
+// fields, pointers, slices, arrays and map values (named types visited once).
+func secretFields(t types.Type, path string, seen map[types.Type]bool, out *[]string) {
+	if seen[t] {
+		return
+	}
+	seen[t] = true
+	defer delete(seen, t)
+	switch u := t.Underlying().(type) {
+	case *types.Pointer:
+		secretFields(u.Elem(), path, seen, out)
+	case *types.Slice:
+		secretFields(u.Elem(), path+"[]", seen, out)
+	case *types.Array:
+		secretFields(u.Elem(), path+"[]", seen, out)
+	case *types.Map:
+		secretFields(u.Elem(), path+"[k]", seen, out)
+	case *types.Struct:
+		for i := 0; i < u.NumFields(); i++ {
+			f := u.Field(i)
+			ln := strings.ToLower(f.Name())
+			if b, ok := f.Type().Underlying().(*types.Basic); ok && b.Info()&types.IsString != 0 &&
+				(strings.Contains(ln, "password") || strings.Contains(ln, "secret")) {
+				*out = append(*out, path+"."+f.Name())
+				continue
+			}
+			secretFields(f.Type(), path+"."+f.Name(), seen, out)
+		}
+	}
+}
+
+// c44Extra: every util.WriteJSON call in the module whose body's static type can hold a secret-named string field
+// is in a function under contract for C44 that anchors an assertion at that call.
+func c44Extra(r *Run) error {
+	callee := modInternal + "util.WriteJSON"
+	var paths []string
+	for p := range r.Prog.Pkgs {
+		if strings.HasPrefix(p, "github.com/tucats/ego") {
+			paths = append(paths, p)
+		}
+	}
+	sort.Strings(paths)
+	n := 0
+	for _, p := range paths {
+		pk := r.Prog.Pkgs[p]
+		if pk.TypesInfo == nil {
+			continue
+		}
+		for _, f := range pk.Syntax {
+			if strings.HasSuffix(r.Prog.Fset.Position(f.Pos()).Filename, "_test.go") {
+				continue
+			}
+			for _, d := range f.Decls {
+				fd, ok := d.(*ast.FuncDecl)
+				if !ok || fd.Body == nil {
+					continue
+				}
+				obj, _ := pk.TypesInfo.Defs[fd.Name].(*types.Func)
+				if obj == nil {
+					continue
+				}
+				ord := 0
+				ast.Inspect(fd.Body, func(nd ast.Node) bool {
+					ce, ok := nd.(*ast.CallExpr)
+					if !ok {
+						return true
+					}
+					fn, _ := typeutil.Callee(pk.TypesInfo, ce).(*types.Func)
+					if fn == nil || fn.FullName() != callee || len(ce.Args) < 4 {
+						return true
+					}
+					ord++
+					bt := pk.TypesInfo.TypeOf(ce.Args[3])
+					var fields []string
+					if bt != nil {
+						secretFields(bt, "body", map[types.Type]bool{}, &fields)
+					}
+					if len(fields) == 0 {
+						return true
+					}
+					n++
+					c := r.Prog.ContractFor(obj.FullName(), p)
+					ok2 := false
+					if c != nil && !c.Trusted && propListed(c.Opts["props"], r.Prop) {
+						for _, a := range c.Anchored {
+							if a.Kind == "assert" && a.AnchorKind == "call" && a.AnchorName == "util.WriteJSON" && (a.AnchorOrd == 0 || a.AnchorOrd == ord) {
+								ok2 = true
+							}
+						}
+					}
+					r.table(fmt.Sprintf("C44/secret-bearing-response[%s#%d]", shortFuncName(obj.FullName()), ord), ok2,
+						"a response body whose type can hold a secret-named field is written only under an assertion that the field is elided",
+						fmt.Sprintf("%s: body type %s, secret fields %v", r.Prog.Fset.Position(ce.Pos()), types.TypeString(bt, nil), fields))
+					return true
+				})
+			}
+		}
+	}
+	if n == 0 {
+		r.table("C44/secret-bearing-response", false, "no secret-bearing response found (scan broken?)", "")
+	}
+	return nil
+}
